@@ -368,6 +368,28 @@ theorem TrackS.create (T : TrackS fresh h K sx st cnt dt) (d : List Nat) (hsx : 
         rw [hout, ← hjs, hck', T.hform]
       · exact ⟨h1, h2, h3, h4⟩
 
+/-! ### create with a failing `malloc` -/
+
+theorem TrackS.createFail (T : TrackS fresh h K sx st cnt dt) (hsx : sx ≠ EMPTY) :
+    TrackS fresh h K sx st.createFail.1 cnt dt := by
+  rcases createFail_spec T.g with ⟨rc, _, he⟩ | ⟨j, _, hem, he⟩ | ⟨m, hm1, hm2, he⟩
+  · rw [he]; exact T
+  · rw [he]
+    refine T.bump j st.iterator ?_
+    have hcond : ¬ (0 < cnt ∧ (st.tbl.get j).inst = some K) := by
+      rintro ⟨ha, hin⟩
+      have hjs : j = hSlot h := Classical.byContradiction fun hne => T.others j hne hin
+      have hl := (T.live ha).1
+      rw [← hjs] at hl
+      rw [hl] at hem
+      exact hsx hem
+    rw [if_neg hcond]
+  · rw [he]
+    refine ⟨⟨hm1, hm2, T.g.checkLt, T.g.instLt, T.g.activeInst⟩, T.hform, ?_, T.kLt, T.others, T.live, T.dead⟩
+    have := T.slotLt
+    show hSlot h < st.handleCount + 1
+    omega
+
 /-! ### iterator_next -/
 
 theorem iterLoop_zero (st : St) (res : Int) : st.iterLoop 0 res = (st, res, none, 0) := rfl
